@@ -58,7 +58,7 @@ def setup_cfg(current_version, version_pattern, file_patterns, commit=False, tag
 
 FOREIGN = {"setup.cfg": ["", "[metadata]\nname = demo\n\n", "[bumpversion]\ncurrent_version = 9.9.9\ncommit = True\n\n[bumpversion:file:setup.py]\n\n"],
            "pyproject.toml": ["", "[build-system]\nrequires = [\"setuptools\"]\n\n[tool.black]\nline-length = 100\n\n", "[tool.bumpversion]\ncurrent_version = \"9.9.9\"\n\n"],
-           "bumpver.toml": ["", "", "# project configuration\n\n"], "pycalver.toml": ["", "# written by the tool's predecessor\n\n"]}
+           "bumpver.toml": ["", "", "# project configuration\n\n"], "pycalver.toml": ["", "# written by the tool's predecessor\n\n"], ".bumpver.toml": ["", "# project configuration\n\n"]}
 
 
 def config_file(fmt, current_version, version_pattern, file_patterns, commit=False, tag=False, push=False, extra=None, variant=0):
